@@ -36,10 +36,29 @@ Definition s_ti (p : profile) (e : endian) (file : bytes) (ds : list dirent) := 
 Definition s_tn (p : profile) (e : endian) (file : bytes) (ds : list dirent) := get_stream file ds ST_THREAD_NAMES (read_thread_names p e file).
 Definition s_hd (v : version) (p : profile) (e : endian) (file : bytes) (ds : list dirent) := get_stream file ds ST_HANDLE_DATA (read_handle_data v p e file).
 Definition s_ex (e : endian) (file : bytes) (ds : list dirent) := get_stream file ds ST_EXCEPTION (fun s => lift (read_exception e s)).
-Definition f_exp (v : version) (ex : res Z) : field :=
-  match ex with Ok n => fld (fun _ => []) (exception_print v n) | _ => FOk [] end.
+Definition f_exp (v : version) (ex : res (Z * (Z * Z))) : field :=
+  match ex with Ok (n, _) => fld (fun _ => []) (exception_print v n) | _ => FOk [] end.
+Definition kind_code (k : option ctxkind) : Z :=
+  match k with
+  | None => 0 | Some CX86 => 1 | Some CAmd64 => 2 | Some CPpc => 3 | Some CPpc64 => 4 | Some CSparc => 5
+  | Some CArm => 6 | Some CArm64 => 7 | Some CArm64Old => 8 | Some CMips => 9
+  end.
+(* the context of the exception as MinidumpException::context sees it *)
+Definition exc_kind (e : endian) (file : bytes) (si : res Z) (ex : res (Z * (Z * Z))) : option ctxkind :=
+  match si, ex with
+  | Ok arch, Ok (_, (csize, crva)) =>
+      match location_slice file csize crva with Some c => context_read e arch c | None => None end
+  | _, _ => None
+  end.
+Definition f_ex (e : endian) (file : bytes) (si : res Z) (ex : res (Z * (Z * Z))) : field :=
+  fld (fun x => [fst x; kind_code (exc_kind e file si ex)]) ex.
+Definition f_exc (v : version) (e : endian) (file : bytes) (si : res Z) (ex : res (Z * (Z * Z))) : field :=
+  match ex with
+  | Ok (n, _) => fld (fun _ => []) (exception_print_ctx v n (exc_kind e file si ex))
+  | _ => FOk []
+  end.
 
-(* field tags: 0 R  1 SI  2 TL  3 ML  4 UM  5 MEM  6 M64  7 MI  8 TI  9 TN  10 HD  11 EX  12 EXP *)
+(* field tags: 0 R  1 SI  2 TL  3 ML  4 UM  5 MEM  6 M64  7 MI  8 TI  9 TN  10 HD  11 EX  12 EXP  13 EXC *)
 Definition run_case (v : version) (p : profile) (file : bytes) : c01_out :=
   match read_header file with
   | Ok (e, ds) =>
@@ -48,7 +67,8 @@ Definition run_case (v : version) (p : profile) (file : bytes) : c01_out :=
                       (5, fld one (snd (s_mem p e file ds))); (6, fld one (snd (s_m64 p e file ds)));
                       (7, fld one (snd (s_mi p e file ds))); (8, fld one (snd (s_ti p e file ds)));
                       (9, fld one (snd (s_tn p e file ds))); (10, fld two (snd (s_hd v p e file ds)));
-                      (11, fld one (snd (s_ex e file ds))); (12, f_exp v (snd (s_ex e file ds)))];
+                      (11, f_ex e file (snd (s_si e file ds)) (snd (s_ex e file ds))); (12, f_exp v (snd (s_ex e file ds)));
+                      (13, f_exc v e file (snd (s_si e file ds)) (snd (s_ex e file ds)))];
          o_ledger := fst (s_tl p e file ds) ++ fst (s_ml p e file ds) ++ fst (s_um p e file ds) ++ fst (s_mem p e file ds)
                      ++ fst (s_m64 p e file ds) ++ fst (s_mi p e file ds) ++ fst (s_ti p e file ds) ++ fst (s_tn p e file ds)
                      ++ fst (s_hd v p e file ds) |}
